@@ -579,6 +579,19 @@ def mk_fn(name, *args):
     if name in ('any', 'all') and len(args) == 1 and args[0][0] == 'B' and Poly.from_key(args[0][2]).is_const():
         # the same truth value at every position (axes are taken to be non-empty: there is at least one filter, one model, one request)
         return Poly.from_key(args[0][2])
+    if name in ('any', 'all') and len(args) == 1 and args[0][0] == 'B':
+        # a bracket that does not depend on the position comes out: any_d(r*X + (1-r)*Y) == r*any_d(X) + (1-r)*any_d(Y)
+        inner = Poly.from_key(args[0][2])
+        free_ = next((a for a in sorted(inner.atoms(), key=_k) if a[0] == 'ind' and args[0][1] not in atom_labels(a)), None)
+        if free_ is not None and all(e == 1 for m in inner.t for a, e in m if a == free_):
+            p0, p1 = Poly(), Poly()
+            for m, c in inner.t.items():
+                if any(at == free_ for at, _ in m):
+                    p1 = p1 + Poly({tuple((at, e) for at, e in m if at != free_): c})
+                else:
+                    p0 = p0 + Poly({m: c})
+            r = Poly.atom(free_)
+            return r * mk_fn(name, ('B', args[0][1], (p0 + p1).key())) + (Poly.const(1) - r) * mk_fn(name, ('B', args[0][1], p0.key()))
     if name == 'any' and len(args) == 1 and args[0][0] == 'B':
         # any(not p) == not all(p): one canonical spelling for a negated conjunction
         inner = Poly.from_key(args[0][2])
@@ -691,6 +704,28 @@ def log10(p):
 NO_SHANNON = False       # True: brackets nested in a bracket's argument are left where they are (no expansion)
 
 
+def _is_truth_valued(p):
+    """every term a product of brackets, and the whole 0 or 1 whatever the brackets are (tried on every assignment of them: sound, the brackets may be
+    related but are never anything else than 0 or 1)"""
+    atoms = []
+    for m, c in p.t.items():
+        for a, e in m:
+            if a[0] != 'ind' or e != 1:
+                return False
+            if a not in atoms:
+                atoms.append(a)
+    if not atoms or len(atoms) > 8:
+        return False
+    seen = set()
+    for bits in range(1 << len(atoms)):
+        on = {a for k, a in enumerate(atoms) if bits >> k & 1}
+        v = sum(c for m, c in p.t.items() if all(a in on for a, e in m))
+        if v not in (0, 1):
+            return False
+        seen.add(v)
+    return seen == {0, 1}
+
+
 def mk_ind(op, p):
     """Iverson bracket [p op]; real comparisons are normalised to '<0' / '==0' with a
     positive-scale-invariant key; brackets nested in the argument are removed by
@@ -722,6 +757,20 @@ def mk_ind(op, p):
                 if c_ == -1 and len(m_) == 1 and m_[0][1] == 1 and m_[0][0][0] == 'fn' and m_[0][0][1] == 'rank' and len(m_[0][0]) == 4 and m_[0][0][2][0] == 'B':
                     if p + Poly.atom(m_[0][0]) == count(m_[0][0][2][1]) - 1:
                         return Poly.const(0)
+        if p.t and all(len(m_) == 1 and m_[0][1] == 1 and m_[0][0][0] == 'sum' for m_ in p.t) and len({m_[0][0][1] for m_ in p.t}) == 1:
+            # a count of the positions at which a mask holds (possibly spread over several sums by linearity): above zero when the mask holds somewhere,
+            # never below zero
+            lab_ = next(iter(p.t))[0][0][1]
+            body_ = Poly()
+            for m_, c_ in p.t.items():
+                body_ = body_ + Poly.from_key(m_[0][0][2]) * Poly.const(c_)
+            for sign_ in (-1, 1):
+                b_ = body_ * Poly.const(sign_)
+                if _is_truth_valued(b_):
+                    some_ = mk_fn('any', ('B', lab_, b_.key()))
+                    if op == '==0':
+                        return Poly.const(1) - some_
+                    return some_ if sign_ == -1 else Poly.const(0)
         p = _scale_normalise(p, allow_flip=(op == '==0'))
     elif op in ('isinf', 'isnan'):
         if p.is_const():
@@ -921,6 +970,23 @@ def sum_over(p, label):
         else:
             r = r + Poly({ind: c}) * count(label)
     return r
+
+
+def is_integer_valued(p):
+    """True when every value the polynomial can take is an integer by construction: integer coefficients on products of indicators, lengths, and
+    sums over an axis of such terms (so ``int()`` of it is the identity)."""
+    for m, c in p.t.items():
+        if Fraction(c).denominator != 1:
+            return False
+        for a, e in m:
+            if Fraction(e).denominator != 1 or e < 0:
+                return False
+            if a[0] == 'ind' or (a[0] == 'fn' and a[1] == 'len'):
+                continue
+            if a[0] == 'sum' and is_integer_valued(Poly.from_key(a[2])):
+                continue
+            return False
+    return True
 
 
 def count(label):
